@@ -245,6 +245,14 @@ Proof.
   destruct (arun_appends _ _ _ _ _ H2) as (D & _). rewrite D. cbn [a_data]. rewrite <- app_assoc. apply nthN_app_len.
 Qed.
 
+(* the GlobalType stored for add_global / add_imported_global is the requested one, whenever the call does not panic
+   (I8 / I16 have no value type); since the repair of D30 this includes DataType::FuncRef / ExternRef *)
+Theorem gty_conv_exact t t' : gty_conv t = Ok t' -> t' = t.
+Proof.
+  unfold gty_conv, ty_conv. destruct (N.eqb (gt_ty t) 20 || N.eqb (gt_ty t) 21); [discriminate|].
+  intros H. inversion H. destruct t; reflexivity.
+Qed.
+
 (* add_global / add_local_memory: the new item is pushed at the end with stored id = its position, nothing else moves *)
 Theorem add_global_appends s fp t e s1 r :
   astep s (OAddGlobal fp t e) = Ok (s1, r) ->
